@@ -441,6 +441,7 @@ def run(ctx: Ctx) -> None:
     memo.rule_negative_start(ctx, [RC, STABF, TR])
     memo.rule_elim_no_pivot(ctx, [RC, STABF, TR])
     memo.rule_subject_drift(ctx, [RC, STABF, TR])
+    memo.rule_isinstance_on_class(ctx, [RC, STABF, TR])
     effects.rule_consumed_tableau(ctx, [RC, STABF, "graphiq/backends/stabilizer/functions/metric.py"])
     ctx.floor("reverse.table", 18)
     ctx.floor("emit.mirror", 6)
